@@ -27,6 +27,7 @@ type c18Case struct {
 	FaultI int        `json:"fault_input"`
 	Chunk  int        `json:"chunk"`
 	Procs  int        `json:"procs"`
+	Stmt   bool       `json:"stmt_yields,omitempty"`
 }
 
 type c18 struct{}
@@ -83,6 +84,7 @@ func (c18) Gen(t *Tape, tier string, run int) interface{} {
 		}
 		c.Inputs = append(c.Inputs, in)
 	}
+	c.Stmt = t.Chance("work", 1, 5)
 	if t.Chance("work", 1, 4) {
 		c.FaultI = t.Draw("work", k)
 		c.Fault = &Fault{Op: "read", At: 1 + t.Draw("work", 4), Kind: []string{"err", "partial"}[t.Draw("work", 2)], Persistent: true}
@@ -204,6 +206,7 @@ func (c *c18Case) buildInputs() (recs [][]c18Rec, imgs [][]byte) {
 func (p c18) Exec(x *Exec, ci interface{}) *Verdict {
 	c := ci.(*c18Case)
 	vd := &Verdict{}
+	x.StmtAll = c.Stmt
 	recs, imgs := c.buildInputs()
 	merged := mergedRefOrder(c.Inputs)
 	byName := map[string]*c18Rec{}
